@@ -343,6 +343,9 @@ func c05RestoreLegs(c *eng.Ctx) {
 			}
 		}
 	}
+	if f := c.Fn("vault.(*ExpirationManager).restore"); f != nil {
+		c05RestoreCollector(c, f)
+	}
 	if f := c.Fn("vault.(*ExpirationManager).RestoreNamespace"); f != nil {
 		c.Clause("R3", "C05.11")
 		var enter []ssa.Instruction
@@ -358,6 +361,150 @@ func c05RestoreLegs(c *eng.Ctx) {
 		}
 		c.Before(f, "restoreMode.Add(k>0)", enter, "restore of the namespace's leases", instrsOf(eng.Calls(f, `vault\.\(\*ExpirationManager\)\.restore$`)))
 	}
+}
+
+// c05RestoreCollector (R4, C05.11): the loop of restore that collects the
+// workers' results. Once a value was received from the error channel, restore
+// may only return that value as its error (the deferred handler acts on it:
+// errorFunc shuts the core down / re-seals the namespace); the only way past
+// is the nil test of the received value itself. A receive into a shadowing
+// variable (seed C05-d) leaves the function's error nil: restore reports
+// success, restore mode ends and the leases not yet dispatched are untracked.
+func c05RestoreCollector(c *eng.Ctx, f *ssa.Function) {
+	c.Clause("R4", "C05.11")
+	site := "on{error received from a restore worker} restore returns that error"
+	errT := types.Universe.Lookup("error").Type()
+	n := 0
+	for _, in := range eng.Instrs(f, func(in ssa.Instruction) bool { _, ok := in.(*ssa.Select); return ok }) {
+		sel := in.(*ssa.Select)
+		recvIdx := 2
+		for i, st := range sel.States {
+			if st.Dir != types.RecvOnly {
+				continue
+			}
+			idx := recvIdx
+			recvIdx++
+			ch, ok := st.Chan.Type().Underlying().(*types.Chan)
+			if !ok || !types.Identical(ch.Elem(), errT) {
+				continue
+			}
+			n++
+			// the value received and the tuple's case index
+			var recv, which ssa.Value
+			if refs := sel.Referrers(); refs != nil {
+				for _, r := range *refs {
+					if ex, ok := r.(*ssa.Extract); ok {
+						switch ex.Index {
+						case idx:
+							recv = ex
+						case 0:
+							which = ex
+						}
+					}
+				}
+			}
+			// the edge on which this case was chosen
+			var edges []eng.Edge
+			for _, b := range f.Blocks {
+				ifi := eng.IfOf(b)
+				if ifi == nil {
+					continue
+				}
+				bo, ok := ifi.Cond.(*ssa.BinOp)
+				if !ok || bo.Op != token.EQL || which == nil {
+					continue
+				}
+				k, isConst := bo.Y.(*ssa.Const)
+				x := bo.X
+				if !isConst {
+					k, isConst = bo.X.(*ssa.Const)
+					x = bo.Y
+				}
+				if isConst && x == which && k.Value != nil && k.Int64() == int64(i) {
+					edges = append(edges, eng.Edge{From: b, Succ: 0})
+				}
+			}
+			if len(edges) == 0 {
+				c.Undecided(f, site, sel.Pos(), "no branch found on which the receive from the error channel was chosen")
+				continue
+			}
+			if recv == nil {
+				c.Violation(f, site, sel.Pos(), "the value received from the workers' error channel is dropped: a failed lease load does not fail the restore", nil)
+				continue
+			}
+			first := edges[0].To().Instrs[0]
+			fe := eng.FeasibleAfter(first)
+			isRecv := func(v ssa.Value) bool {
+				rs := eng.Roots(v, fe)
+				if len(rs) == 0 {
+					return false
+				}
+				for _, r := range rs {
+					if r != recv {
+						return false
+					}
+				}
+				return true
+			}
+			// the way past: the received value itself tested nil
+			var blocked []eng.Edge
+			for _, b := range f.Blocks {
+				ifi := eng.IfOf(b)
+				if ifi == nil || !fe.Reach[b] {
+					continue
+				}
+				bo, ok := ifi.Cond.(*ssa.BinOp)
+				if !ok || (bo.Op != token.EQL && bo.Op != token.NEQ) {
+					continue
+				}
+				x := bo.X
+				if eng.IsNilConst(bo.X) {
+					x = bo.Y
+				} else if !eng.IsNilConst(bo.Y) {
+					continue
+				}
+				if isRecv(x) {
+					succ := 0
+					if bo.Op == token.NEQ {
+						succ = 1
+					}
+					blocked = append(blocked, eng.Edge{From: b, Succ: succ})
+				}
+			}
+			bad, badPos, nRet := "", sel.Pos(), 0
+			seen := map[*ssa.Return]bool{}
+			for {
+				h := eng.Reach(eng.Query{Fn: f, StartEdges: edges, Blocked: blocked, Target: func(in ssa.Instruction) bool {
+					r, ok := in.(*ssa.Return)
+					return ok && !seen[r] && in.Block().Comment != "recover"
+				}})
+				if h == nil {
+					break
+				}
+				r := h.Instr.(*ssa.Return)
+				seen[r] = true
+				nRet++
+				vals, _, _ := eng.ReturnVals(r, f.Signature.Results().Len()-1)
+				if len(vals) == 0 {
+					bad, badPos = "an error result that cannot be resolved", r.Pos()
+				}
+				for _, v := range vals {
+					if !isRecv(v) {
+						bad, badPos = eng.ExprDeep(v), r.Pos()
+					}
+				}
+			}
+			switch {
+			case bad != "":
+				c.Violation(f, site, badPos, "after a worker's error was received restore can return "+bad+" as its error instead of the value received (other than past a nil test of that value): the restore is reported complete, errorFunc never runs and the leases not yet dispatched stay untracked", nil)
+			case nRet == 0:
+				c.Undecided(f, site, sel.Pos(), "no return is reachable after the receive from the error channel")
+			default:
+				c.OK(f, site, first.Pos(), "every return reachable after the receive (not past 'received == nil') returns the received error")
+			}
+		}
+	}
+	c.Floor(f, "receive from the workers' error channel in restore", n, 1)
 }
 
 // c05LenOf: v is len(x); returns x.
